@@ -408,6 +408,12 @@ def types_corpus():
                  "body": [("assign", "u", ("draw", ("unif", -2, 1))), ("assign", "w", P.det(("mul", v("u"), v("u")))),
                           ("if", [(("atom", v("u"), "<", c(0)), [("assign", "w", P.det(("sub", c(0), v("w"))))])], None)]},
                 [], "negative-uniform"))
+    # a variable assigned twice in the initial part: its value at n = 0 is the LAST one
+    out.append(({"types": [], "init": [("assign", "x", P.det(c(0))), ("assign", "x", P.det(("add", v("x"), c(1)))), ("assign", "y", P.det(c(0)))],
+                 "guard": ("true",),
+                 "body": [("assign", "y", P.det(("add", v("y"), ("pow", v("x"), 3)))),
+                          ("assign", "x", ("choice", [(c(F(1, 2)), c(2)), (c(F(1, 2)), c(3))]))]},
+                [{"y": 1}], "initial-part-reassignment"))
     return out
 
 
